@@ -3,9 +3,18 @@ package main
 // branch names the path of the modelled code a cache operation is about to take, from the API state
 // and the cache as it is before the call (input-distribution table of the evidence).
 func (g *gen) branch(o Op) {
-	d := g.w.cluster.VerifC11Dump()
+	d := g.pre
 	switch o.Kind {
 	case "DeliverNode":
+		if !g.w.pvLate {
+			for _, p := range g.w.pods {
+				for _, v := range p.Vols {
+					if v == "pvc-z" && p.Node == o.Name && !p.Terminal {
+						g.count("br:UpdateNode:fails-pod-volume-unresolvable")
+					}
+				}
+			}
+		}
 		n, ok := g.w.nodes[o.Name]
 		id, known := d.NodeNameToPID[o.Name]
 		switch {
@@ -59,6 +68,13 @@ func (g *gen) branch(o Op) {
 			}
 		}
 	case "DeliverPod":
+		if q, ok := g.w.pods[o.Name]; ok && !g.w.pvLate && !q.Terminal && q.Node != "" {
+			for _, v := range q.Vols {
+				if v == "pvc-z" {
+					g.count("br:UpdatePod:fails-volume-unresolvable")
+				}
+			}
+		}
 		p, ok := g.w.pods[o.Name]
 		old, bound := d.Bindings[podKey(o.Name)]
 		_, oldTracked := d.NodeNameToPID[old]
